@@ -826,7 +826,11 @@ fn query(pool: &[Option<Obj>], toks: &[&str]) -> String {
 
 fn main() {
     std::panic::set_hook(Box::new(|_| {}));
-    let args: Vec<String> = std::env::args().collect();
+    let mut args: Vec<String> = std::env::args().collect();
+    // --twice: every instruction and query is executed twice in this process and the two results
+    // must be equal (determinism within a process)
+    let twice = args.iter().any(|a| a == "--twice");
+    args.retain(|a| a != "--twice");
     let input: Box<dyn BufRead> = if args.len() > 1 {
         Box::new(std::io::BufReader::new(std::fs::File::open(&args[1]).unwrap()))
     } else {
@@ -854,6 +858,19 @@ fn main() {
                 lineno += 1;
                 let res = catch_unwind(AssertUnwindSafe(|| exec(&pool, &toks[1..])));
                 let mut variant = String::new();
+                if twice {
+                    let again = catch_unwind(AssertUnwindSafe(|| exec(&pool, &toks[1..])));
+                    let sig = |r: &std::thread::Result<Step>| match r {
+                        Ok(Step::Ok(o)) => format!("ok {} {}", show_struct(o), match o { Obj::E(e) => format!("{:?}", e), Obj::T(t) => format!("{:?}", t), Obj::B(b) => format!("{:?}", b) }),
+                        Ok(Step::Err) => "err".to_string(),
+                        Ok(Step::ErrV(v)) => format!("err {}", v),
+                        Ok(Step::Na) => "na".to_string(),
+                        Err(_) => "panic".to_string(),
+                    };
+                    if sig(&res) != sig(&again) {
+                        variant.push_str(" det=0");
+                    }
+                }
                 let status = match res {
                     Ok(Step::Ok(o)) => {
                         pool.push(Some(o));
@@ -882,10 +899,19 @@ fn main() {
             "q" => {
                 lineno += 1;
                 let res = catch_unwind(AssertUnwindSafe(|| query(&pool, &toks[1..])));
-                let s = match res {
+                let mut s = match res {
                     Ok(s) => s,
                     Err(_) => "panic".to_string(),
                 };
+                if twice {
+                    let again = match catch_unwind(AssertUnwindSafe(|| query(&pool, &toks[1..]))) {
+                        Ok(s) => s,
+                        Err(_) => "panic".to_string(),
+                    };
+                    if again != s {
+                        s.push_str(" det=0");
+                    }
+                }
                 writeln!(out, "{} {} {}", case, lineno, s).unwrap();
             }
             t => {
